@@ -160,6 +160,15 @@ class ChunkLoopTrans(LoopTrans):
                 f"Cannot apply a ChunkLoopTrans to a loop with larger step "
                 f"size ({node.step_expr.value}) than the chosen chunk size "
                 f"({chunk_size}).")
+        if int(node.step_expr.value) != 0 and \
+                abs(chunk_size) % abs(int(node.step_expr.value)) != 0:
+            # Every chunk restarts the original stride at its own lower
+            # bound, so the chunks only visit the original iterations if
+            # each chunk holds a whole number of steps.
+            raise TransformationError(
+                f"Cannot apply a ChunkLoopTrans to a loop with a step size "
+                f"({node.step_expr.value}) that does not divide the chosen "
+                f"chunk size ({chunk_size}).")
         if 'chunked' in node.annotations:
             raise TransformationError("Cannot apply a ChunkLoopTrans to "
                                       "an already chunked loop.")
